@@ -19,7 +19,7 @@ THEOREMS = [
     "C09.raise_delivered", "C09.stopped_iff_terminated", "C09.live_source", "C09.no_escape_pipe",
     "C09.no_escape_map", "C09.no_escape_filter", "C09.no_escape_take_while", "C09.no_escape_distinct", "C09.distinct_comparer_raise",
     "C09.distinct_unfixed_escapes", "C09.no_escape_find", "C09.no_escape_scan", "C09.no_escape_reduce", "C09.no_escape_extrema",
-    "C09.no_escape_min_max", "C09.no_escape_to_dict", "C09.no_escape_contains", "C09.no_escape_predicate_forms",
+    "C09.no_escape_min_max", "C09.no_escape_to_dict", "C09.no_escape_hashing", "C09.no_escape_contains", "C09.no_escape_predicate_forms",
     "C09.no_escape_key_forms", "C09.no_escape_sequence_equal",
     "C09.map_raise_end_to_end", "C09.reduce_raise_end_to_end", "C09.contains_raise_end_to_end",
     # generic end-to-end theorem (A)+(B) => delivery, closed under pipe, and its instances for the whole family
